@@ -455,26 +455,36 @@ def xattrIdLoop (cmp : Cmp) (s : WState) (m : MetaW) (locs : List Nat) : List By
     let locs := if sm.2.blockOffset ≠ locs.getLastD 0 then locs ++ [sm.2.blockOffset] else locs
     xattrIdLoop cmp sm.1 sm.2 locs r
 
+/-- `write_kv_pairs`: the key/value records, then `sqfs_meta_writer_flush` -/
+def xattrKv (cmp : Cmp) (s : WState) (x : XattrIn) : WState × MetaW :=
+  let sm := metaAppendAll cmp s {} x.kv
+  metaFlush cmp sm.1 sm.2
+
+/-- `sqfs_meta_writer_reset`, `write_id_table` -/
+def xattrIds (cmp : Cmp) (s : WState) (m : MetaW) (x : XattrIn) : WState × List Nat :=
+  let r := xattrIdLoop cmp s { m with blockOffset := 0, data := [] } [0] x.idEntries
+  ((metaFlush cmp r.1 r.2.1).1, r.2.2)
+
+/-- `write_location_table`: 16-byte `sqfs_xattr_id_table_t` at `xattr_id_table_start`, then the locations -/
+def xattrLocTable (s : WState) (kvStart nIds : Nat) (locs : List Nat) : WState :=
+  let start := s.size
+  let s1 := fWrite s start (le 8 kvStart ++ le 4 nIds ++ le 4 0)
+  fWrite s1 (start + sizeofXattrIdTable) (leList 8 locs)
+
 /-- `sqfs_xattr_writer_flush` -/
 def xattrFlush (cmp : Cmp) (s : WState) (sup : Super) (x : XattrIn) : WState × Super :=
   if x.kv.length = 0 ∨ x.idEntries.length = 0 then
     (s, { sup with xattrStart := unset, flags := sup.flags ||| flagNoXattrs })
   else
     let kvStart := s.size
-    let sm := metaAppendAll cmp s {} x.kv
-    let sm := metaFlush cmp sm.1 sm.2
-    let m : MetaW := { sm.2 with blockOffset := 0, data := [] }           -- sqfs_meta_writer_reset
-    let idStart := sm.1.size
+    let kv := xattrKv cmp s x
+    let idStart := kv.1.size
     let count := tableBlocks (x.idEntries.length * sizeofXattrId)          -- alloc_location_table
-    let r := xattrIdLoop cmp sm.1 m [0] x.idEntries
-    let sm := metaFlush cmp r.1 r.2.1
-    let s := sm.1
-    let start := s.size
-    let locs := (r.2.2.take count).map (· + idStart)
-    -- write_location_table: 16-byte sqfs_xattr_id_table_t, then the locations
-    let s := fWrite s start (le 8 kvStart ++ le 4 x.idEntries.length ++ le 4 0)
-    let s := fWrite s (start + sizeofXattrIdTable) (leList 8 locs)
-    (s, { sup with xattrStart := start, flags := sup.flags &&& (0xFFFF - flagNoXattrs) })
+    let ids := xattrIds cmp kv.1 kv.2 x
+    let start := ids.1.size
+    let locs := (ids.2.take count).map (· + idStart)
+    (xattrLocTable ids.1 kvStart x.idEntries.length locs,
+     { sup with xattrStart := start, flags := sup.flags &&& (0xFFFF - flagNoXattrs) })
 
 /-! ## The packers' skeleton: `sqfs_writer_init`, data, `sqfs_writer_finish` -/
 
@@ -524,12 +534,9 @@ def serialize (r : Run) (s : WState) (sup : Super) : WState × Super :=
   let sup := { sup with rootRef := r.rootRef, dirStart := s.size }
   (metaWriteList s dm.2.list, sup)
 
-/-- everything up to, not including, the final `sqfs_super_write` of `sqfs_writer_finish` -/
-def preFinal (r : Run) : WState × Super :=
-  let i := wInit r
-  let d := writeDataBlocks i.1 {} r.blocks                  -- pack_files … sqfs_block_processor_finish
-  let sup := { i.2 with inodeCount := r.inodeCount % 2 ^ 32 }
-  let x := serialize r d.1 sup
+/-- `sqfs_writer_finish` from `sqfs_serialize_fstree` up to, not including, the final `sqfs_super_write` -/
+def tables (r : Run) (s : WState) (sup : Super) : WState × Super :=
+  let x := serialize r s sup
   let x := fragTableWrite r.cmp x.1 x.2 r.fragTable r.fragAnyCompressed
   let x := match r.exportTable with
     | none => x
@@ -538,6 +545,12 @@ def preFinal (r : Run) : WState × Super :=
   match r.xattr with
   | none => x
   | some xa => xattrFlush r.cmp x.1 x.2 xa
+
+/-- everything up to, not including, the final `sqfs_super_write` of `sqfs_writer_finish` -/
+def preFinal (r : Run) : WState × Super :=
+  let i := wInit r
+  let d := writeDataBlocks i.1 {} r.blocks                  -- pack_files … sqfs_block_processor_finish
+  tables r d.1 { i.2 with inodeCount := r.inodeCount % 2 ^ 32 }
 
 /-- the superblock `sqfs_writer_finish` writes last -/
 def finalSuper (r : Run) : Super :=
